@@ -63,7 +63,7 @@ func New[A p2p.Addr, Pub any](x p2p.SecureSwarm[A, Pub], mtu int, opts ...Option
 func (s *Swarm[A, Pub]) Ask(ctx context.Context, resp []byte, dst A, req p2p.IOVec) (int, error) {
 	ctx, cf := context.WithTimeout(ctx, maxAskWait)
 	defer cf()
-	if p2p.VecSize(req) > s.mtu {
+	if p2p.VecSize(req) > s.MTU() {
 		return 0, p2p.ErrMTUExceeded
 	}
 	// create ask in map
@@ -101,7 +101,7 @@ func (s *Swarm[A, Pub]) Ask(ctx context.Context, resp []byte, dst A, req p2p.IOV
 }
 
 func (s *Swarm[A, Pub]) Tell(ctx context.Context, dst A, msg p2p.IOVec) error {
-	if p2p.VecSize(msg) > s.mtu {
+	if p2p.VecSize(msg) > s.MTU() {
 		return p2p.ErrMTUExceeded
 	}
 	return s.send(ctx, dst, sendParams{
@@ -142,6 +142,10 @@ func (s *Swarm[A, Pub]) LookupPublicKey(ctx context.Context, x A) (Pub, error) {
 }
 
 func (s *Swarm[A, Pub]) MTU() int {
+	// the part count is a 16 bit field: what does not fit into 65535 parts of the inner swarm cannot be sent.
+	if partSize := s.inner.MTU() - HeaderSize; partSize > 0 && s.mtu > (1<<16-1)*partSize {
+		return (1<<16 - 1) * partSize
+	}
 	return s.mtu
 }
 
@@ -209,7 +213,7 @@ func (s *Swarm[A, Pub]) handleTell(ctx context.Context, src, dst A, body []byte)
 }
 
 func (s *Swarm[A, Pub]) handleAskRequest(ctx context.Context, src, dst A, id GroupID, body []byte) error {
-	respBuf := make([]byte, s.mtu)
+	respBuf := make([]byte, s.MTU())
 	n, err := s.asks.Deliver(ctx, respBuf, p2p.Message[A]{
 		Src:     src,
 		Dst:     dst,
